@@ -73,6 +73,8 @@ fn lambda() -> impl Strategy<Value = Hex> {
         3 => Just(gen::hex32(&BigUint::one())),
         1 => Just(gen::hex32(&BigUint::from(2u32))),
         1 => Just(gen::hex32(&(&p - BigUint::one()))),
+        // Montgomery limbs equal to the plain integers 1, 2 (field elements R^-1, 2R^-1)
+        1 => (1u32..3).prop_map(|k| gen::hex32(&((BigUint::from(k) * mod_inv(&(r256() % r2::p_static()), r2::p_static()).unwrap()) % r2::p_static()))),
         4 => prop::array::uniform32(any::<u8>()).prop_map(move |a| gen::hex32(&(from_be(&a) % &p))).prop_filter("lambda != 0", |h| !from_be(&h.0).is_zero()),
         1 => Just(gen::hex32(&BigUint::zero())),
     ]
